@@ -1,5 +1,5 @@
 import sys
-from collections.abc import MutableSequence, MutableSet, Sequence
+from collections.abc import MutableSequence, MutableSet, Sequence, Set
 from typing import Any, Callable, Generic, Iterable, Optional, Tuple, Type, TypeVar
 
 from spec_classes.errors import BaseTypeError
@@ -362,6 +362,31 @@ class KeyedSet(Generic[ItemType, KeyType], MutableSet, KeyedBase):  # pylint: di
             key=self._key,
             enforce_item_equivalence=self.enforce_item_equivalence,
         )
+
+    def _as_keyed(self, other):
+        """
+        Read a foreign set (e.g. a built-in `set`) as a `KeyedSet` configured
+        like this one, so that its items are identified by key exactly as
+        items of any other iterable operand are.
+        """
+        if isinstance(other, Set) and not isinstance(other, KeyedSet):
+            return self._from_iterable(other)
+        return other
+
+    def __le__(self, other):
+        return super().__le__(self._as_keyed(other))
+
+    def __lt__(self, other):
+        return super().__lt__(self._as_keyed(other))
+
+    def __ge__(self, other):
+        return super().__ge__(self._as_keyed(other))
+
+    def __gt__(self, other):
+        return super().__gt__(self._as_keyed(other))
+
+    def __sub__(self, other):
+        return super().__sub__(self._as_keyed(other))
 
     # Magic methods
 
